@@ -227,7 +227,7 @@ impl Enc {
     let words = ((s.num_bits + 31) / 32) as usize;
     let mut w = vec![0u32; words];
     for m in &s.members {
-      let off = m - s.base;
+      let off = m.wrapping_sub(s.base);
       if off >= 0 && (off as u64) < s.num_bits as u64 {
         w[(off / 32) as usize] |= 1u32 << (31 - (off % 32));
       }
